@@ -98,6 +98,7 @@ static void FinishCmd(int idx) {
         if (vfs::disk->Write(o, "GARBAGE from failed " + s.id() + "\n")) rc.wrote = true;
     }
     if (ft.bad_depfile && !s.depfile.empty()) vfs::disk->Write(s.depfile, "this is what a compiler that died half way leaves\n");
+    if (ft.trim_depfile && !s.depfile.empty()) vfs::disk->Write(s.depfile, DepfileEscape(s.outs[0]) + ":\n");
     rc.status = ft.by_signal ? 130 : ft.exit_code;
     rc.output = s.print + "error: " + s.id() + " failed\n";
     Record(Event::kFinish, idx, rc.status);
